@@ -23,7 +23,13 @@ ASSUMPTIONS = ["the threshold theorems assume strictly increasing timestamps (C0
                "dropna: C07_dropna assumes all consecutive samples more than 1 us apart; C07_dropna_exact / _converse give the exact condition (a lone kept row is more than 1 us before the next row); "
                "the oracle assumes nothing",
                "the statement does not ask the dropna support to lie inside the old one (it bridges gaps and can extend 1 us past the old end): not checked",
-               "dropna with the default support is not run on a series whose timestamps all coincide (its default support is empty and it holds no sample: zero-span quirk, see C04/C08)"]
+               "dropna with the default support is not run on a series whose timestamps all coincide (its default support is empty and it holds no sample: zero-span quirk, see C04/C08)",
+               "widened forms: data values stay exactly representable in float64 (|v| <= 2^40 for 64-bit integers; float32 extremes are exact doubles), so 'satisfies the comparison' is the exact mathematical comparison of "
+               "the stored value with the threshold (Python int/float comparison is exact); float16 data / thresholds (numba has no float16), array-valued thresholds, non-bool update_time_support and non-numeric thresholds "
+               "are outside the documented signature and are not generated",
+               "clauses added with the widened forms, each under its own key part: the result keeps the dtype of the data ('each with its original value'; not for an all-NaN dropna, whose result is empty), "
+               "a TsdFrame keeps its column labels, dropna(update_time_support=False) leaves the support unchanged and an unknown / differently-cased method string raises ValueError "
+               "(the last two restate the docstrings of the parameters: the statement's support clauses speak of x.dropna() and of the four method strings only)"]
 
 U2 = 2 * 1953125
 METHODS = {"above": lambda v, t: v > t, "below": lambda v, t: v < t, "aboveequal": lambda v, t: v >= t, "belowequal": lambda v, t: v <= t}
@@ -94,19 +100,489 @@ def _report(res, key, causes, what, inp, bad, cause_of, **extra):
     return set(groups)
 
 
-def check_threshold(nap, ts, vals, ep, method, thr, model_sup, res, dtype="float"):
-    """the statement, clause by clause, on tsd.threshold(thr, method); ts / ep in integer ns, ts sorted (duplicates allowed), all inside ep"""
+# ------------------------------------------------------------------------------------------------------------------------
+# Widened argument forms (third-round lesson: the most common form of every argument is not enough).  A `form` is a small JSON
+# dict; every key is optional and its absence means the base form used by the first rounds (float64 ndarray times, two float
+# arrays for the support, a fresh C-contiguous ndarray of data, positional call).  The ORACLE never looks at the form: it works on
+# the effective content (timestamps in ns, Python values, support in ns) of the receiver.
+NPDT = {"float": np.float64, "int": np.int64, "float64": np.float64, "float32": np.float32, "int64": np.int64, "int32": np.int32, "int16": np.int16,
+        "int8": np.int8, "uint8": np.uint8, "uint16": np.uint16, "uint32": np.uint32, "uint64": np.uint64, "bool": np.bool_}
+FLOAT_DT = ("float", "float64", "float32")
+INT_T = {"int64": np.int64, "int32": np.int32, "uint8": np.uint8, "uint64": np.uint64, "float32": np.float32}      # whole-second time arrays
+SEC = 10**9
+_TMP = [None, 0]
+
+
+def _tmpfile(ext):
+    if _TMP[0] is None:
+        import atexit
+        import shutil
+        import tempfile
+        _TMP[0] = tempfile.mkdtemp(prefix="c07_")
+        atexit.register(shutil.rmtree, _TMP[0], True)
+    _TMP[1] += 1
+    import os
+    return os.path.join(_TMP[0], "f%d%s" % (_TMP[1], ext))
+
+
+def _whole_s(xs):
+    return all(x % SEC == 0 for x in xs)
+
+
+def _times_arg(nap, ts, tf):
+    """the timestamps ts (ns) as the `t` argument in the form tf -> (argument, constructor keywords)"""
+    a = G.arr(ts)
+    if tf in (None, "base", "pandas"):
+        return a, {}
+    if tf == "list":
+        return a.tolist(), {}
+    if tf == "tuple":
+        return tuple(a.tolist()), {}
+    if tf == "intlist":
+        return [t // SEC for t in ts], {}
+    if tf in INT_T:
+        return np.array([t // SEC for t in ts], dtype=INT_T[tf]), {}
+    if tf in ("tsindex", "ts.t"):
+        o = nap.Ts(a, time_support=nap.IntervalSet(ts[0] / 1e9 - 1.0, ts[-1] / 1e9 + 1.0)) if ts else nap.Ts(a)
+        if len(o) != len(ts):
+            raise RuntimeError("C07 generator: Ts dropped samples")
+        return (o.index if tf == "tsindex" else o.t), {}
+    if tf == "pdindex":
+        import pandas as pd
+        return pd.Index(a), {}
+    if tf == "strided":
+        big = np.zeros(2 * len(ts))
+        big[::2] = a
+        return big[::2], {}
+    if tf == "ms":
+        return np.asarray(ts, dtype=np.float64) / 1e6, {"time_units": "ms"}
+    if tf == "us":
+        return np.asarray(ts, dtype=np.float64) / 1e3, {"time_units": "us"}
+    if tf == "ms_int":
+        return np.array([t // 10**6 for t in ts], dtype=np.int64), {"time_units": "ms"}
+    raise ValueError("unknown time form %r" % (tf,))
+
+
+def _time_form_ok(tf, ts, ep):
+    if tf in ("intlist", "ms_int") or tf in INT_T:
+        if not _whole_s(ts):
+            return False
+        lo, hi = (min(ts), max(ts)) if ts else (0, 0)
+        if tf in ("uint8", "uint64") and lo < 0:
+            return False
+        if tf == "uint8" and hi > 255 * SEC:
+            return False
+        if tf == "float32" and max(abs(lo), abs(hi)) > 2**24 * SEC:
+            return False
+    return True
+
+
+def _support_arg(nap, ep, sf):
+    """the canonical interval set ep (ns) as an IntervalSet built in the form sf (None for 'default': no time_support given)"""
+    if sf == "default":
+        return None
+    a, b = [s for s, _ in ep], [e for _, e in ep]
+    st, en = G.arr(a), G.arr(b)
+    I = nap.IntervalSet
+    if sf in (None, "base"):
+        return I(st, en)
+    if sf == "kw":
+        return I(start=st, end=en)
+    if sf == "lists":
+        return I(st.tolist(), en.tolist())
+    if sf == "tuples":
+        return I(tuple(st.tolist()), tuple(en.tolist()))
+    if sf == "pairs":
+        return I(np.stack([st, en], 1))
+    if sf == "df":
+        import pandas as pd
+        return I(pd.DataFrame({"start": st, "end": en}))
+    if sf == "iset":
+        return I(I(st, en))
+    if sf == "meta":
+        return I(st, en, metadata={"tag": ["i%d" % i for i in range(len(ep))]})
+    if sf == "reversed":
+        return I(st[::-1].copy(), en[::-1].copy())
+    if sf in ("int64", "int32", "uint8", "uint64", "uint8_reversed", "uint64_reversed"):
+        dt = getattr(np, sf.split("_")[0])
+        s_, e_ = np.array([x // SEC for x in a], dtype=dt), np.array([x // SEC for x in b], dtype=dt)
+        return I(s_[::-1].copy(), e_[::-1].copy()) if sf.endswith("reversed") else I(s_, e_)
+    if sf == "scalars":
+        return I(float(st[0]), float(en[0]))
+    if sf == "intscalars":
+        return I(a[0] // SEC, b[0] // SEC)
+    if sf == "ms":
+        return I(np.asarray(a, dtype=np.float64) / 1e6, np.asarray(b, dtype=np.float64) / 1e6, time_units="ms")
+    if sf == "us":
+        return I(np.asarray(a, dtype=np.float64) / 1e3, np.asarray(b, dtype=np.float64) / 1e3, time_units="us")
+    raise ValueError("unknown support form %r" % (sf,))
+
+
+def _support_form_ok(sf, ts, ep):
+    if sf == "default":
+        return len(ts) >= 2 and ts[0] < ts[-1] and [tuple(i) for i in ep] == [(ts[0], ts[-1])]
+    flat = [x for i in ep for x in i]
+    if sf in ("scalars", "intscalars") and len(ep) != 1:
+        return False
+    if sf in ("pairs", "df", "iset", "meta", "reversed", "uint8_reversed", "uint64_reversed") and not ep:
+        return False
+    if sf in ("int64", "int32", "uint8", "uint64", "uint8_reversed", "uint64_reversed", "intscalars"):
+        if not _whole_s(flat) or (sf.startswith("uint") and flat and min(flat) < 0) or (sf.startswith("uint8") and flat and max(flat) > 255 * SEC):
+            return False
+    return True
+
+
+def _data_arg(d, df):
+    """the data array d in the container form df -> (argument, constructor keywords)"""
+    if df in (None, "base"):
+        return d, {}
+    if df == "list":
+        return d.tolist(), {}
+    if df == "strided":
+        big = np.zeros((2 * d.shape[0],) + d.shape[1:], dtype=d.dtype)
+        big[::2] = d
+        return big[::2], {}
+    if df == "readonly":
+        c = d.copy()
+        c.setflags(write=False)
+        return c, {}
+    if df == "fortran":
+        return np.asfortranarray(d), {}
+    if df == "memmap":          # lazily loaded data: the object keeps the memmap (load_array=False)
+        mm = np.memmap(_tmpfile(".dat"), dtype=d.dtype, mode="w+", shape=d.shape)
+        mm[:] = d
+        mm.flush()
+        return mm, {"load_array": False}
+    raise ValueError("unknown data form %r" % (df,))
+
+
+def _data_form_ok(df, d):
+    if df == "list":
+        return d.size > 0 and d.dtype in (np.dtype(np.float64), np.dtype(np.int64), np.dtype(np.bool_))
+    if df == "memmap":
+        return d.size > 0
+    if df == "fortran":
+        return d.ndim >= 2
+    return True
+
+
+def _construct(nap, cls, ts, d, ep, form, ckw):
+    """one object of class cls holding samples (ts, d) with time support ep, every argument in the form asked for"""
+    targ, tkw = _times_arg(nap, ts, form.get("t"))
+    sup_ = _support_arg(nap, ep, form.get("sup"))
+    if form.get("data") == "same_as_t":         # ONE ndarray passed as timestamps and as data (the values are the times in s)
+        darg, dkw = targ, {}
+    else:
+        darg, dkw = _data_arg(d, form.get("data"))
+    kw = dict(tkw, **dkw)
+    kw.update(ckw)
+    if sup_ is not None:
+        kw["time_support"] = sup_
+    K = getattr(nap, cls)
+    if form.get("t") == "pandas" and cls != "TsdTensor":
+        import pandas as pd
+        if cls == "Tsd":
+            return K(pd.Series(darg, index=targ), **kw)
+        cols = kw.pop("columns", None)
+        return K(pd.DataFrame(darg, index=targ, columns=cols), **kw)
+    if form.get("ctor") == "kw":
+        return K(t=targ, d=darg, **kw)
+    return K(targ, darg, **kw)
+
+
+PURE_HIST = (None, "none", "restrict", "slice_all", "mask_all", "get", "arith", "npfunc", "saveload", "copy", "column", "loc", "colsel")
+
+
+def _hist_index(n, hist):
+    """rows of the constructed object that the history keeps (histories whose effect is known without running the library)"""
+    if hist == "slice_tail":
+        return list(range(1, n))
+    if hist == "index_list":
+        return [i for i in range(n) if i % 3 != 1]
+    return list(range(n))
+
+
+def _receiver(nap, cls, ts, d, ep, form, ckw=None):
+    """Build the receiver through the history form['hist'].  Returns (x, rows) where rows = indices of (ts, d) the receiver must hold,
+       or (x, None) when the history is a library operation whose effect is read back from the object (chain_*)."""
+    ckw = dict(ckw or {})
+    hist = form.get("hist")
+    n = len(ts)
+    if hist == "restrict":
+        # a larger object (extra samples before, after and inside the gaps of ep, one wide interval) restricted to ep
+        extra = [(ep[0][0] if ep else 0) - 2 * SEC, (ep[-1][1] if ep else 0) + 2 * SEC]
+        if extra[0] < 0 and form.get("t") in ("uint8", "uint64"):
+            extra = extra[1:]
+        whole = _whole_s(ts + [x for i in ep for x in i])
+        for (_, e0), (s1, _) in zip(ep, ep[1:]):
+            mid = (e0 + s1) // 2
+            if (e0 + s1) % 2 == 0 and e0 < mid < s1 and (not whole or mid % SEC == 0):
+                extra.append(mid)
+        allt = sorted([(t, i) for i, t in enumerate(ts)] + [(t, -1) for t in extra])
+        one = np.ones((1,) + d.shape[1:], dtype=d.dtype)
+        big_d = np.concatenate([d[i:i + 1] if i >= 0 else one for _, i in allt]) if allt else d
+        big_t = [t for t, _ in allt]
+        f2 = dict(form, sup="base")
+        big = _construct(nap, cls, big_t, big_d, [(big_t[0] - SEC, big_t[-1] + SEC)], f2, ckw)
+        if len(big) != len(big_t):
+            raise RuntimeError("C07 generator: the constructor dropped samples of the object to be restricted")
+        return big.restrict(_support_arg(nap, ep, form.get("sup"))), list(range(n))
+    if hist in ("column", "loc"):           # a Tsd taken out of a TsdFrame: its data is a strided view of the frame's
+        D3 = np.stack([d[::-1], d, d], 1) if n else np.zeros((0, 3), dtype=d.dtype)
+        fr = _construct(nap, "TsdFrame", ts, D3, ep, form, {"columns": ["a", "b", "c"]})
+        return (fr[:, 1] if hist == "column" else fr.loc["b"]), list(range(n))
+    x0 = _construct(nap, cls, ts, d, ep, form, ckw)
+    if len(x0) != n:
+        raise RuntimeError("C07 generator: the constructor dropped samples")
+    if hist in (None, "none"):
+        x = x0
+    elif hist == "slice_all":
+        x = x0[0:n] if n else x0[:]
+    elif hist == "slice_tail":
+        x = x0[1:]
+    elif hist in ("index_list", "mask_all") and n == 0:
+        x = x0[:]           # (an EMPTY index array selects columns, not rows, on a TsdFrame: not this property's business)
+    elif hist == "index_list":
+        x = x0[np.array(_hist_index(n, hist), dtype=np.int64)]
+    elif hist == "mask_all":
+        x = x0[np.ones(n, dtype=bool)]
+    elif hist == "get":
+        x = x0.get(ts[0] / 1e9, ts[-1] / 1e9) if n else x0
+    elif hist == "arith":
+        x = (x0 + 0.0) * 1.0 if d.dtype.kind == "f" else (x0 + 0 if d.dtype.kind in "iu" else x0)
+    elif hist == "npfunc":
+        x = np.negative(np.negative(x0)) if d.dtype.kind in "fi" else (np.abs(x0) if d.dtype.kind == "u" else x0)
+    elif hist == "copy":
+        x = x0.copy()
+    elif hist == "colsel":
+        x = x0[[str(c) for c in x0.columns]] if cls == "TsdFrame" and len(x0.columns) >= 2 and all(isinstance(c, str) for c in x0.columns) else x0
+    elif hist == "saveload":
+        p = _tmpfile(".npz")
+        x0.save(p)
+        x = nap.load_file(p)
+    elif hist == "chain_thr":
+        c = form["chain"]
+        return x0.threshold(c[0], c[1]), None
+    elif hist == "chain_dropna":
+        return x0.dropna(), None
+    else:
+        raise ValueError("unknown history %r" % (hist,))
+    return x, _hist_index(n, hist)
+
+
+def _same_values(a, b):
+    a, b = np.asarray(a), np.asarray(b)
+    return a.shape == b.shape and bool(np.array_equal(a, b, equal_nan=True) if a.dtype.kind == "f" else np.array_equal(a, b))
+
+
+def _checked_receiver(nap, cls, ts, d, ep, form, ckw, inp):
+    """(x, effective ts, effective data array, effective support): the receiver must hold exactly what the generator meant it to hold"""
+    x, rows = _receiver(nap, cls, ts, d, ep, form, ckw)
+    if type(x).__name__ != cls:
+        raise RuntimeError("C07 generator: the history produced a %s instead of a %s: %r" % (type(x).__name__, cls, inp))
+    if rows is None:        # effect of a library operation: read back
+        return x, [C.to_ns(t) for t in x.t], np.asarray(x.values), sup(x)
+    ets, ed = [ts[i] for i in rows], d[rows]
+    eep = [tuple(i) for i in ep] if ets else []
+    if [C.to_ns(t) for t in x.t] != ets or sup(x) != eep or not _same_values(x.values, ed) or np.asarray(x.values).dtype != d.dtype:
+        raise RuntimeError("C07 generator: the receiver does not hold the intended samples / support / dtype: %r" % (inp,))
+    return x, ets, ed, eep
+
+
+def _thr_arg(thr, tf):
+    """the threshold value thr (a Python number) in the scalar form tf; every form holds EXACTLY the value thr (see _thr_form_ok)"""
+    if tf in (None, "py"):
+        return thr
+    if tf == "pyfloat":
+        return float(thr)
+    if tf == "pyint":
+        return int(thr)
+    if tf == "bool":
+        return bool(thr)
+    if tf in ("float64", "float32"):
+        return getattr(np, tf)(thr)
+    if tf in ("int64", "int32", "int16", "int8", "uint8", "uint16", "uint64"):
+        return getattr(np, tf)(int(thr))
+    if tf == "0d":
+        return np.array(float(thr))
+    if tf == "0d_f32":
+        return np.array(thr, dtype=np.float32)
+    if tf == "0d_int":
+        return np.array(int(thr))
+    raise ValueError("unknown threshold form %r" % (tf,))
+
+
+def _thr_form_ok(thr, tf):
+    fin = thr == thr and abs(thr) != float("inf")
+    if tf in (None, "py", "pyfloat", "float64", "0d"):
+        return True
+    if tf in ("float32", "0d_f32"):
+        return not fin or float(np.float32(thr)) == thr
+    if not fin or thr != int(thr):
+        return False
+    if tf == "bool":
+        return thr in (0, 1)
+    if tf in ("pyint", "0d_int"):
+        return abs(thr) < 2**62
+    if tf in ("int64", "int32", "int16", "int8", "uint8", "uint16", "uint64"):
+        i = np.iinfo(getattr(np, tf))
+        return i.min <= int(thr) <= i.max
+    return False
+
+
+def _kernel_sig(x, a):
+    """what decides the numba specialisation of the threshold kernel: dtype / layout / writability of the data, type of the threshold"""
+    v = x.values[:]
+    if isinstance(a, np.ndarray):
+        ta = "0d_" + a.dtype.name
+    elif isinstance(a, (bool, np.bool_)):
+        ta = "bool"
+    elif isinstance(a, int):
+        ta = "int64"
+    elif isinstance(a, float):
+        ta = "float64"
+    else:
+        ta = type(a).__name__
+    return (v.dtype.name, "C" if v.flags.c_contiguous else "A", "rw" if v.flags.writeable else "ro", ta)
+
+
+SMALL_PAIRS = {("float32", "float32"), ("float32", "0d_float32"), ("uint8", "uint8"), ("uint8", "int8"), ("int16", "int16"), ("int8", "float32")}
+
+
+def _sig_allowed(sig, tier):
+    """Every new (data type, threshold type) pair costs one numba compilation (~1 s, cached afterwards).  The pairs are therefore taken from a FIXED table
+       (independent of the seed, so that the cache stays warm): every dtype with a Python int and a Python float; every threshold type with float64 data
+       (thorough: also float32 and uint8 data); six small-dtype pairs; strided and read-only data for float64 / float32 / int16 with Python scalars."""
+    D, lay, rw, ta = sig
+    if lay == "C" and rw == "rw":
+        return ta in ("int64", "float64") or D == "float64" or (D, ta) in SMALL_PAIRS or (tier == "thorough" and D in ("float32", "uint8"))
+    return ta in ("int64", "float64") and D in ("float64", "float32", "int16") and (lay, rw) in (("A", "rw"), ("C", "ro"))
+
+
+def fit_threshold_case(nap, c, tier):
+    """build the receiver of the wide case c; forms are dropped (threshold form, data container, time form, history: in this order) until the kernel
+       specialisation is one of the fixed table.  Returns (receiver tuple, signature); c['form'] is updated."""
+    form, rec = c["form"], None
+    for drop in (None, "thr", "data", "t", "hist"):
+        if drop is not None:
+            if drop not in form:
+                continue
+            del form[drop]
+            if drop == "hist":
+                form.pop("chain", None)
+        if rec is None or drop in ("data", "t", "hist"):
+            rec = threshold_receiver(nap, c["ts"], c["vals"], c["ep"], c["dtype"], form)
+        sig = _kernel_sig(rec[0], _thr_arg(c["thr"], form.get("thr")))
+        if _sig_allowed(sig, tier):
+            return rec, sig
+    raise RuntimeError("C07 generator: no admissible kernel signature for %r (%r)" % (c, sig))
+
+
+def _probe_in_child(fn):
+    """run fn() in a forked child and report how it ended: ("ok",) / ("exc", type name, message, is ValueError) / ("crash", signal).
+       An unvalidated method string reaching the compiled kernel can kill the interpreter: the harness must survive that and report it."""
+    import os
+    import pickle
+    r, w = os.pipe()
+    pid = os.fork()
+    if pid == 0:
+        code = 0
+        try:
+            os.close(r)
+            try:
+                fn()
+                out = ("ok",)
+            except Exception as ex:
+                out = ("exc", type(ex).__name__, str(ex)[:200], isinstance(ex, ValueError))
+            with os.fdopen(w, "wb") as f:
+                pickle.dump(out, f)
+        except BaseException:
+            code = 1
+        finally:
+            os._exit(code)
+    os.close(w)
+    with os.fdopen(r, "rb") as f:
+        data = f.read()
+    _, status = os.waitpid(pid, 0)
+    if os.WIFSIGNALED(status):
+        return ("crash", os.WTERMSIG(status))
+    if not data:
+        return ("crash", -1)
+    return pickle.loads(data)
+
+
+def _call_threshold(x, a, method, cf):
+    if cf in (None, "pos"):
+        return x.threshold(a, method)
+    if cf == "kw":
+        return x.threshold(thr=a, method=method)
+    if cf == "kw_swapped":
+        return x.threshold(method=method, thr=a)
+    if cf == "mixed":
+        return x.threshold(a, method=method)
+    if cf == "default":             # method left at its default ("above")
+        return x.threshold(a)
+    if cf == "default_kw":
+        return x.threshold(thr=a)
+    if cf == "npstr":
+        return x.threshold(a, np.str_(method))
+    if cf.startswith("case:") or cf.startswith("bad:"):
+        return x.threshold(a, cf.split(":", 1)[1])
+    raise ValueError("unknown call form %r" % (cf,))
+
+
+def threshold_receiver(nap, ts, vals, ep, dtype="float", form=None):
+    """(receiver, effective ts, effective Python values, effective support) of a threshold case; form None = the base form of the first rounds"""
+    inp = {"ts": ts, "values": vals, "ep": ep, "dtype": dtype, "form": form}
+    if form is None:
+        epo = nap.IntervalSet(G.arr([a for a, _ in ep]), G.arr([b for _, b in ep]))
+        x = nap.Tsd(G.arr(ts), np.asarray(vals, dtype=np.int64 if dtype == "int" else float), time_support=epo)
+        if len(x) != len(ts) or (ts and sup(x) != [tuple(i) for i in ep]):      # (an empty series always gets an empty support)
+            raise RuntimeError("C07 generator: the constructor changed the input (samples outside the support or non-canonical support): %r" % (inp,))
+        return x, ts, vals, ep
+    d = np.asarray(vals, dtype=NPDT[dtype]) if len(vals) else np.zeros(0, dtype=NPDT[dtype])
+    if d.tolist() != list(vals) and not (d.dtype.kind == "f" and _same_values(d, np.asarray(vals, dtype=np.float64))):
+        raise RuntimeError("C07 generator: values not representable in dtype %s: %r" % (dtype, inp))
+    x, ets, ed, eep = _checked_receiver(nap, "Tsd", ts, d, [tuple(i) for i in ep], form, {}, inp)
+    return x, ets, ed.tolist(), eep
+
+
+def check_threshold(nap, ts, vals, ep, method, thr, model_sup, res, dtype="float", form=None, x=None):
+    """the statement, clause by clause, on tsd.threshold(thr, method); ts / ep in integer ns, ts sorted (duplicates allowed), all inside ep.
+       form: the argument forms (None = base forms); x: a live receiver built by threshold_receiver for THIS input (the same object used again)"""
     inp = {"ts": ts, "values": vals, "ep": ep, "method": method, "thr": thr, "dtype": dtype}
-    epo = nap.IntervalSet(G.arr([a for a, _ in ep]), G.arr([b for _, b in ep]))
-    x = nap.Tsd(G.arr(ts), np.asarray(vals, dtype=np.int64 if dtype == "int" else float), time_support=epo)
-    if len(x) != len(ts) or (ts and sup(x) != [tuple(i) for i in ep]):      # (an empty series always gets an empty support)
-        raise RuntimeError("C07 generator: the constructor changed the input (samples outside the support or non-canonical support): %r" % (inp,))
+    if form is not None:
+        inp["form"] = form
+    form_ = form or {}
+    if x is None:
+        x, ts, vals, ep = threshold_receiver(nap, ts, vals, ep, dtype, form)
+    else:
+        x, ts, vals, ep = x
+    in_dtype = np.asarray(x.values).dtype
     kept = [bool(METHODS[method](v, thr)) for v in vals]
     key = {"op": "threshold", "method": method}
+    cf = form_.get("call")
+    if cf and cf.split(":")[0] in ("case", "bad"):
+        # a method string that is not one of the four: first tried in a child process (it may reach the compiled kernel unvalidated)
+        st = _probe_in_child(lambda: _call_threshold(x, _thr_arg(thr, form_.get("thr")), method, cf))
+        if st[0] == "crash":
+            res.violations.append({"key": dict(key, part="crash"), "what": "threshold(%r) killed the interpreter (signal %s) instead of raising ValueError" % (cf.split(":", 1)[1], st[1]), "input": inp})
+            return
     try:
-        r = x.threshold(thr, method)
+        r = _call_threshold(x, _thr_arg(thr, form_.get("thr")), method, cf)
     except Exception as ex:
+        if cf and cf.split(":")[0] in ("case", "bad") and isinstance(ex, ValueError):
+            res.count("threshold:method_string_rejected_with_ValueError")
+            return              # documented: ValueError for a method that is not one of the four strings
         res.violations.append({"key": dict(key, part="exception"), "what": "threshold raised " + type(ex).__name__ + ": " + str(ex)[:120], "input": inp})
+        return
+    if cf and cf.startswith("bad:"):
+        res.violations.append({"key": dict(key, part="unknown_method_accepted"), "what": "threshold accepted the unknown method %r" % cf[4:], "input": inp})
+        return
+    # (a method string in another letter case that is accepted must behave as the method it spells: the oracle goes on with `method`)
+    if np.asarray(r.values).dtype != in_dtype:
+        res.violations.append({"key": dict(key, part="dtype"), "what": "threshold changed the dtype of the values (%s -> %s): a kept sample keeps its original value" % (in_dtype, np.asarray(r.values).dtype),
+                               "input": inp})
         return
     exp_t = [t for t, k in zip(ts, kept) if k]
     exp_v = [v for v, k in zip(vals, kept) if k]
@@ -175,8 +651,87 @@ DROP_CAUSES = ["within_1us_of_time_shared_by_kept_and_rejected", "kept_singleton
                "rejected_within_1us_after_kept_singleton"]
 
 
-def check_dropna(nap, ts, keep, res, model_sup, cls="Tsd", support="wide"):
-    """the statement on x.dropna(); support: 'wide' (one explicit interval around all samples), 'default' (none given), or a list of intervals (ns)"""
+COLS = {"default": None, "str": ["z", "b", "a", "q"], "int": [7, 3, 5, 11], "strnum": ["10", "2", "1", "03"]}
+
+
+def _dropna_data(keep, cls, v):
+    """data array of the variant v = {dtype, shape (of one row), seed}: a kept row holds finite values and infinities of both signs, a rejected row holds
+       at least one NaN (one, or every element) next to finite / infinite values; integer and bool dtypes cannot hold a NaN (keep must be all ones)"""
+    rng = random.Random(v.get("seed", 0))
+    dt = np.dtype(NPDT[v.get("dtype", "float64")])
+    shape = tuple(v.get("shape", ()))
+    n = len(keep)
+    m = int(np.prod(shape)) if shape else 1
+    d = np.zeros((n, m), dtype=dt)
+    if dt.kind == "f":
+        pool = [0.0, 1.0, -2.0, 3.0, 0.5, 1.0, 2.0, float("inf"), float("-inf")]
+    elif dt.kind == "b":
+        pool = [False, True]
+    else:
+        i = np.iinfo(dt)
+        pool = [0, 1, 2, 3, max(i.min, -2**53), min(i.max, 2**53)]
+    for r_, k in enumerate(keep):
+        for j in range(m):
+            d[r_, j] = rng.choice(pool)
+        if not k:
+            if dt.kind != "f" or m == 0:
+                raise RuntimeError("C07 generator: a row of dtype %s / %d elements cannot hold a NaN" % (dt, m))
+            for j in (range(m) if rng.random() < 0.25 else rng.sample(range(m), rng.choice([1, 1, min(2, m)]))):
+                d[r_, j] = np.nan
+    return d.reshape((n,) + shape)
+
+
+def dropna_receiver(nap, ts, keep, cls, support, form):
+    """(receiver, effective ts, effective keep mask, effective data) of a widened dropna case"""
+    inp = {"ts": ts, "keep": keep, "class": cls, "support": support, "form": form}
+    v = form.get("variant", {})
+    d = _dropna_data(keep, cls, v)
+    if support == "wide":
+        ep = [(ts[0] - SEC, ts[-1] + SEC)] if ts else []
+    elif support == "default":
+        ep = [(ts[0], ts[-1])]
+        form = dict(form, sup="default")
+    else:
+        ep = [tuple(i) for i in support]
+    ckw = {}
+    if cls == "TsdFrame":
+        cols = COLS[v.get("cols", "default")]
+        if cols is not None:
+            ckw["columns"] = cols[:d.shape[1]]
+        if v.get("meta"):
+            ckw["metadata"] = {"g": list(range(d.shape[1]))}
+    x, ets, ed, _ = _checked_receiver(nap, cls, ts, d, ep, form, ckw, inp)
+    # the oracle's own reading of "row containing no NaN", element by element
+    ekeep = [0 if any(e != e for e in np.asarray(row).reshape(-1).tolist()) else 1 for row in ed]
+    if form.get("hist") not in ("chain_thr", "chain_dropna") and ekeep != [keep[i] for i in _hist_index(len(ts), form.get("hist"))]:
+        raise RuntimeError("C07 generator: NaN rows differ from the intended mask: %r" % (inp,))
+    return x, ets, ekeep, ed
+
+
+def _call_dropna(x, cf):
+    if cf in (None, "()"):
+        return x.dropna()
+    if cf == "(True)":
+        return x.dropna(True)
+    if cf == "(kw=True)":
+        return x.dropna(update_time_support=True)
+    if cf == "(False)":
+        return x.dropna(False)
+    if cf == "(kw=False)":
+        return x.dropna(update_time_support=False)
+    raise ValueError("unknown call form %r" % (cf,))
+
+
+def check_dropna(nap, ts, keep, res, model_sup, cls="Tsd", support="wide", form=None, x=None):
+    """the statement on x.dropna(); support: 'wide' (one explicit interval around all samples), 'default' (none given), or a list of intervals (ns);
+       form: argument forms / data variant / history / call form (None = the base forms); x: a live receiver from dropna_receiver (used again)"""
+    if form is not None:
+        inp = {"ts": ts, "keep": keep, "class": cls, "support": support, "form": form}
+        if x is None:
+            x = dropna_receiver(nap, ts, keep, cls, support, form)
+        x, ts, keep, _ = x
+        n = len(ts)
+        return _dropna_oracle(nap, x, ts, keep, n, res, model_sup, cls, inp, form.get("call"))
     inp = {"ts": ts, "keep": keep, "class": cls, "support": support}
     n = len(ts)
     if support == "wide":   # explicit support: a zero-span series has an empty default support
@@ -207,9 +762,15 @@ def check_dropna(nap, ts, keep, res, model_sup, cls="Tsd", support="wide"):
         x = nap.TsdTensor(G.arr(ts), d, **kw)
     if len(x) != n:
         raise RuntimeError("C07 generator: the constructor dropped samples: %r" % (inp,))
+    return _dropna_oracle(nap, x, ts, keep, n, res, model_sup, cls, inp, None)
+
+
+def _dropna_oracle(nap, x, ts, keep, n, res, model_sup, cls, inp, cf):
     key = {"op": "dropna", "class": cls}
+    uts = cf not in ("(False)", "(kw=False)")
+    old_sup = sup(x)
     try:
-        r = x.dropna()
+        r = _call_dropna(x, cf)
     except Exception as ex:
         res.violations.append({"key": dict(key, part="exception"), "what": "dropna raised " + type(ex).__name__ + ": " + str(ex)[:120], "input": inp})
         return
@@ -247,6 +808,25 @@ def check_dropna(nap, ts, keep, res, model_sup, cls="Tsd", support="wide"):
         lost = set(bad)
     elif not np.array_equal(np.asarray(r.values), np.asarray(x.values)[rows]):
         res.violations.append({"key": dict(key, part="values"), "what": "dropna keeps the right timestamps with the wrong rows", "input": inp})
+        return
+    elif exp_t and np.asarray(r.values).dtype != np.asarray(x.values).dtype:
+        res.violations.append({"key": dict(key, part="dtype"), "what": "dropna changed the dtype of the kept rows (%s -> %s): a kept row keeps its original values"
+                               % (np.asarray(x.values).dtype, np.asarray(r.values).dtype), "input": inp})
+        return
+    elif cls == "TsdFrame" and list(r.columns) != list(x.columns):
+        res.violations.append({"key": dict(key, part="columns"), "what": "dropna relabelled the columns (%r -> %r): a value of a kept row is no longer under its original column"
+                               % (list(x.columns), list(r.columns)), "input": inp})
+        return
+    if not uts:
+        # update_time_support=False is outside the statement's support clauses (docstring: the time support is left as it is).  Checked: the rows (above),
+        # every kept sample inside the support (statement), and the support unchanged (docstring of the parameter)
+        out = sorted({t for t in exp_t if t not in lost and not G.mem(t, S)})
+        if out:
+            res.violations.append({"key": dict(key, part="contains_kept", update_time_support=False), "what": "a kept sample is outside the time support of dropna(update_time_support=False)",
+                                   "input": inp, "impl": S, "at": out})
+        elif S != (old_sup if got_t else []):
+            res.violations.append({"key": dict(key, part="support_unchanged", update_time_support=False),
+                                   "what": "dropna(update_time_support=False) changed the time support (docstring of the parameter)", "input": inp, "impl": S, "expected": old_sup})
         return
     bad = sorted({t for t, k in zip(ts, keep) if t not in shared and t not in lost and G.mem(t, S) != k})
     bad += sorted(t for t in shared if t not in lost and G.mem(t, S))
@@ -302,6 +882,223 @@ def rand_ns_case(rng):
     return ep, ts, [rng.choice([0, 1, 2]) for _ in ts]
 
 
+# ------------------------------------------------------------------------------------------------------------------------
+# generators of the widened forms
+T_ALT = ["list", "tuple", "tsindex", "ts.t", "pdindex", "pandas", "strided", "ms", "us"]
+T_INT = ["intlist", "int64", "int32", "uint8", "uint64", "float32", "ms_int"]
+S_ALT = ["kw", "lists", "tuples", "pairs", "df", "iset", "meta", "reversed", "scalars", "ms", "us", "default", "default"]
+S_INT = ["int64", "int32", "uint8", "uint64", "uint8_reversed", "uint64_reversed", "intscalars"]
+D_ALT = ["list", "strided", "readonly", "memmap", "fortran"]
+H_ANY = ["restrict", "slice_all", "slice_tail", "index_list", "mask_all", "get", "arith", "npfunc", "saveload", "copy", "chain_dropna"]
+H_TSD = H_ANY + ["column", "loc", "chain_thr", "chain_thr"]
+THR_ALT = ["pyfloat", "pyint", "bool", "float64", "float32", "int64", "int16", "int8", "uint8", "uint64", "0d", "0d_f32", "0d_int"]
+CALL_ALT = ["kw", "kw_swapped", "mixed", "npstr", "default", "default_kw"]
+DT_W = ["float64"] * 3 + ["float32"] * 3 + ["int64", "int32", "int16", "int8", "uint8", "uint16", "uint32", "uint64", "bool"]
+OFF_U = [0, 0, -3, -1000, 25600000, -25600003]          # lattice offsets in units of U2 (25600000 * U2 = 1e5 s)
+OFF_S = [0, 0, 0, 1, -3, 50000]                         # whole-second lattice (unit 2 s): offsets in units
+
+
+def _pick(rng, alts, p_base=0.5):
+    return None if rng.random() < p_base or not alts else rng.choice(alts)
+
+
+def _place(rng, whole):
+    """a map from lattice coordinates (multiples of U2) to ns: the dyadic lattice (unit U2) or the whole-second lattice (unit 2 s), shifted"""
+    unit, off = (2 * SEC, rng.choice(OFF_S)) if whole else (U2, rng.choice(OFF_U))
+    return lambda t: (t // U2 + off) * unit
+
+
+def _forms(rng, ts, ep, d_probe, whole, hists, default_ok=True):
+    """a random combination of argument forms applicable to (ts, ep, data): each axis keeps its base form with probability 1/2"""
+    f = {}
+    t = _pick(rng, T_ALT + (T_INT * 2 if whole else []))
+    if t and _time_form_ok(t, ts, ep):
+        f["t"] = t
+    s = _pick(rng, S_ALT + (S_INT * 2 if whole else []))
+    if s and (default_ok or s != "default") and _support_form_ok(s, ts, ep):
+        f["sup"] = s
+    dform = _pick(rng, D_ALT)
+    if dform and _data_form_ok(dform, d_probe):
+        f["data"] = dform
+    h = _pick(rng, hists)
+    if h and not (h == "restrict" and f.get("sup") == "default") and not (h in ("column", "loc") and f.get("data") == "fortran"):
+        f["hist"] = h
+    if rng.random() < 0.3:
+        f["ctor"] = "kw"
+    return f
+
+
+def _thr_values(rng, vals, dtype):
+    """values of the dtype for the pattern vals in {0,1,2}^n, and a threshold that separates / equals them: -> (values, thr)"""
+    dt = np.dtype(NPDT[dtype])
+    mode = rng.choice(["small", "small", "edge", "special"])
+    if dt.kind == "b":
+        return [bool(v) for v in vals], rng.choice([1, 0.5, 0, 1.5, -0.5])
+    if mode == "edge":
+        if dt.kind == "f":
+            big, tenth = float(np.finfo(dt).max), float(dt.type(0.1))
+            tab = [-big, tenth, big]
+            thr = rng.choice([0.1, tenth, big, -big, 0, float(dt.type(0.3)), 0.3])
+            if rng.random() < 0.3:
+                tab = [tenth, float(dt.type(0.3)), float(dt.type(0.2))]
+        else:
+            i = np.iinfo(dt)
+            lo, hi = max(i.min, -2**40), min(i.max, 2**40)
+            mid = 0 if lo < 0 else hi // 2
+            tab = [lo, mid, hi]
+            thr = rng.choice([lo - 1, lo, lo + 0.5, mid, mid + 0.5, hi - 0.5, hi, hi + 1, hi + 1.5])
+        return [tab[v] for v in vals], thr
+    if mode == "special" and dt.kind == "f":
+        out = [float(v) for v in vals]
+        for _ in range(rng.choice([1, 1, 2])):
+            if out:
+                out[rng.randrange(len(out))] = rng.choice([float("nan"), float("inf"), float("-inf")])
+        return out, rng.choice([1, 1, float("inf"), float("-inf"), float("nan"), 0.5])
+    thr = rng.choice([1, 1, 0.5, 1.5] + ([-0.5] if dt.kind in "fi" else []))
+    out = [v - 1 for v in vals] if thr < 0 else list(vals)
+    return ([float(v) for v in out] if dt.kind == "f" else out), thr
+
+
+def wide_threshold_case(rng, distinct, dups):
+    """one threshold case in non-base forms: dict(ep, ts, vals, dtype, thr, methods, form, reuse)"""
+    whole = rng.random() < 0.3
+    k = rng.random()
+    if k < 0.08:            # degenerate receivers
+        ep = rng.choice(EPS)
+        ts = rng.choice([[], [], [ep[-1][0]], [ep[0][1]], [ep[0][0]] * 2, [ep[-1][1]] * 3])
+        vals = [rng.choice([0, 1, 2]) for _ in ts]
+        if rng.random() < 0.2:
+            ep, ts, vals = [], [], []       # empty time support
+    elif k < 0.72 or whole:
+        ep, ts, vals = rng.choice(distinct if rng.random() < 0.7 else dups)
+    else:
+        ep, ts, vals = rand_ns_case(rng)
+        whole = None
+    if whole is not None:
+        conv = _place(rng, whole)
+        ep, ts = [(conv(a), conv(b)) for a, b in ep], [conv(t) for t in ts]
+        if rng.random() < 0.2 and len(ts) >= 2 and ts[0] < ts[-1]:
+            ep = [(ts[0], ts[-1])]          # the support a series gets by default
+    ep, ts, vals = [tuple(i) for i in ep], list(ts), list(vals)
+    dtype = rng.choice(DT_W)
+    vals, thr = _thr_values(rng, vals, dtype)
+    d = np.asarray(vals, dtype=NPDT[dtype]) if vals else np.zeros(0, dtype=NPDT[dtype])
+    form = _forms(rng, ts, ep, d, bool(whole), H_TSD)
+    if form.get("hist") == "chain_thr":
+        form["chain"] = [rng.choice([0.5, 1.5, 1]), rng.choice(list(METHODS))]
+        form.pop("data", None)              # (the first threshold runs on plain data: its kernel specialisation stays in the fixed table, see _sig_allowed)
+        if form.get("t") == "pandas":
+            del form["t"]
+    if form.get("hist") == "chain_dropna":
+        if d.dtype.kind == "f" and vals:
+            for _ in range(rng.choice([1, 2])):
+                vals[rng.randrange(len(vals))] = float("nan")
+        else:
+            del form["hist"]
+    if dtype == "float64" and ts and form.get("t") in (None, "strided") and form.get("data") is None and form.get("hist") in (None, "slice_all", "copy", "get") \
+            and len(set(ts)) == len(ts) and rng.random() < 0.5:
+        form["data"] = "same_as_t"
+        vals = G.arr(ts).tolist()
+        thr = rng.choice(vals + [(vals[0] + vals[-1]) / 2])
+    tf = _pick(rng, [f_ for f_ in THR_ALT if _thr_form_ok(thr, f_)], 0.4)
+    if tf:
+        form["thr"] = tf
+    reuse = rng.random() < 0.25
+    methods = list(METHODS) if reuse else [rng.choice(list(METHODS))]
+    r = rng.random()
+    if r < 0.06:
+        form["call"] = "case:" + rng.choice([methods[0].upper(), methods[0].capitalize(), methods[0].swapcase(), methods[0][0].upper() + methods[0][1:]])
+        methods, reuse = methods[:1], False
+    elif r < 0.10:
+        form["call"] = "bad:" + rng.choice(["abov", "", "greater", "above ", "aboveequals", ">"])
+        methods, reuse = methods[:1], False
+    elif r < 0.55:
+        cf = rng.choice(CALL_ALT)
+        if cf.startswith("default"):
+            methods, reuse = ["above"], False
+        form["call"] = cf
+    return {"ep": ep, "ts": ts, "vals": vals, "dtype": dtype, "thr": thr, "methods": methods, "form": form, "reuse": reuse}
+
+
+SHAPES = {"Tsd": [()], "TsdFrame": [(1,), (2,), (2,), (3,), (4,)], "TsdTensor": [(2, 2), (1, 3), (3, 1), (2, 1, 2), (1, 1, 1, 2)]}
+
+
+def wide_dropna_case(rng, pts):
+    """one dropna case in non-base forms: dict(ts, keep, cls, support, form, calls)"""
+    whole = rng.random() < 0.3
+    k = rng.random()
+    lat = None
+    if k < 0.07:
+        ts, lat = [], []
+    elif k < 0.75 or whole:
+        lat = sorted(rng.choice(pts) for _ in range(rng.randint(1, 4)))
+        conv = _place(rng, whole)
+        ts = [conv(t) for t in lat]
+    else:
+        ts = [rng.choice([0, 0, 10**9 + 7, -5000, 10**14])]
+        for _ in range(rng.randint(1, 4)):
+            ts.append(ts[-1] + rng.choice([0, 1, 500, 999, 1000, 1001, 1500, 2000, 2001, 5000, 10**6]))
+        whole = False
+    n = len(ts)
+    cls = rng.choice(["Tsd", "TsdFrame", "TsdTensor"])
+    r = rng.random()
+    dtype = "float64" if r < 0.5 else ("float32" if r < 0.78 else rng.choice(DT_W[6:]))
+    r = rng.random()
+    keep = [1] * n if (r < 0.12 or dtype not in FLOAT_DT) else ([0] * n if r < 0.2 else [rng.randint(0, 1) for _ in range(n)])
+    shape = rng.choice(SHAPES[cls])
+    if cls == "TsdFrame" and all(keep) and rng.random() < 0.08:
+        shape = (0,)
+    v = {"dtype": dtype, "shape": list(shape), "seed": rng.randrange(10**6)}
+    if cls == "TsdFrame":
+        v["cols"] = rng.choice(list(COLS))
+        if rng.random() < 0.3:
+            v["meta"] = True
+    # support: wide / default / several intervals (lattice cases: one of EPS containing the samples, placed like them)
+    support = "wide"
+    r = rng.random()
+    if r < 0.3 and n >= 2 and ts[0] < ts[-1]:
+        support = "default"
+    elif r < 0.6 and lat is not None:
+        multi = [ep for ep in EPS[1:] if all(G.mem(t, ep) for t in lat)]
+        if multi and (n or rng.random() < 0.5):
+            c = conv if n else _place(rng, whole)
+            support = [(c(a), c(b)) for a, b in rng.choice(multi)]
+    ep = [(ts[0] - SEC, ts[-1] + SEC)] if support == "wide" and ts else ([] if support == "wide" else ([(ts[0], ts[-1])] if support == "default" else support))
+    probe = np.zeros((max(n, 1),) + tuple(shape), dtype=NPDT[dtype])
+    if n == 0 or 0 in shape:
+        probe = probe[:0]
+    hists = (H_TSD if cls == "Tsd" else H_ANY + (["colsel"] if cls == "TsdFrame" else []))
+    form = _forms(rng, ts, ep, probe, bool(whole), hists, default_ok=False)
+    if 0 in shape and form.get("t") == "pandas":
+        del form["t"]                   # (a pandas DataFrame without columns forgets its dtype)
+    if support == "default":
+        form.pop("sup", None)
+        if form.get("hist") == "restrict":
+            del form["hist"]
+    if form.get("hist") == "chain_thr":
+        form["chain"] = [rng.choice([0.5, 1.5, -1e300]), rng.choice(list(METHODS))]
+        form.pop("data", None)
+        if form.get("t") == "pandas":
+            del form["t"]
+    form["variant"] = v
+    calls = [rng.choice(["()", "()", "()", "(True)", "(kw=True)", "(False)", "(kw=False)"])]
+    if rng.random() < 0.2:
+        calls.append(rng.choice(["()", "(kw=True)", "(kw=False)"]))          # the same live object used twice
+    return {"ts": ts, "keep": keep, "cls": cls, "support": support, "form": form, "calls": calls}
+
+
+def _count_form(res, op, form, extra=()):
+    nb = 0
+    for ax in ("t", "sup", "data", "hist", "thr", "call", "ctor"):
+        v = form.get(ax)
+        if v is not None:
+            nb += 1
+            res.count("%s:form:%s=%s" % (op, ax, v.split(":")[0] if ax == "call" else v))
+    res.count("%s:forms_combined=%d" % (op, nb))
+    for e in extra:
+        res.count("%s:%s" % (op, e))
+
+
 def run(res, tier, seed):
     nap, J = _nap()
     warnings.simplefilter("ignore")
@@ -318,7 +1115,23 @@ def run(res, tier, seed):
                 "multi-interval support containing the samples (rotating) [quick: 1200 sampled]; plus 300 (thorough 3000) ns-resolution cases with gaps 0 / 1 ns / <1 us / =1 us / 1-2 us / >2 us. Oracle = the statement (kept exact, separation, "
                 "restrict reproduces, threshold inside old support, midpoints exact up to ns rounding), no exemption: what cannot hold (kept and rejected at one timestamp, 1 ns neighbours) "
                 "is reported under a dedicated key. Model correspondence on the new support when the raw model support is canonical on whole ticks. "
-                "non-trivial = >=2 samples with both kept and rejected" % (nmax, dmax, nrand, nmax))
+                "non-trivial = >=2 samples with both kept and rejected. "
+                "WIDENED ARGUMENT FORMS (fourth round; %d threshold and %d dropna cases, every axis drawn independently from random.Random(seed*13+5), base form with probability 1/2, so forms are COMBINED; "
+                "the oracle is the same statement applied to the effective content of the receiver; the model is run on that content). "
+                "Axis 1 dtype: threshold on float64/float32/int64/int32/int16/int8/uint8/uint16/uint32/uint64/bool data (values 0,1,2 / the dtype's extremes with thresholds one below, on, half a unit inside and one above them / "
+                "float32 values 0.1f,0.2f,0.3f against the double 0.1, 0.3 and against the float32 value itself / NaN, +inf, -inf samples; thresholds +inf, -inf, NaN); dropna on the same dtypes (NaN only in floats; rows mixing NaN, +inf, -inf; "
+                "a rejected row has one, two or only NaN elements at random positions; integer/bool rows are all kept); the result keeps the dtype. "
+                "Axis 2 scalar / time forms: thr as Python int / float / bool, np.float64/float32, np.int8/int16/int64, np.uint8/uint64, 0-d float64 / float32 / int arrays (each holding exactly the mathematical threshold; the (data type, threshold type) pairs come from a fixed seed-independent table, see _sig_allowed: every pair is one numba specialisation of the kernel); "
+                "receiver timestamps given as ndarray, list, tuple, pandas Index, pandas Series/DataFrame, another object's TsIndex, its .t, a strided view, Python ints, int64/int32/uint8/uint64/float32 arrays (whole-second lattice); "
+                "time support built from two arrays, keywords, lists, tuples, an (n,2) array, a DataFrame, another IntervalSet, with metadata, in reversed order, from Python scalars, from int64/int32/uint8/uint64 arrays (also reversed), or left to the default. "
+                "Axis 3 parameters: thr / method positional, by keyword, swapped keywords, method omitted (default 'above'), method as np.str_; a method string in another letter case must raise ValueError or act as the method it spells, "
+                "an unknown method string must raise ValueError (these calls are first tried in a forked child: a kernel reached with an unvalidated string kills the interpreter, reported as part=crash); dropna(), dropna(True/False), dropna(update_time_support=True/False) (False: rows exact, kept samples inside, support unchanged); constructor arguments positional and by keyword. "
+                "Axis 4 units: receiver times and supports given in ms / us (float and integer ms). Axis 5 placement: lattice shifted to negative times, across 0, to +-1e5 s; whole-second lattice. "
+                "Axis 6 degenerate: empty series (with one / several / no interval), one sample, all samples at one timestamp, empty time support, frames with 0 and 1 column. "
+                "Axis 7 classes: dropna on Tsd, TsdFrame (1-4 columns; default / string / non-sorted integer / numeric-string labels, with metadata; labels must survive), TsdTensor (row shapes (2,2) (1,3) (3,1) (2,1,2) (1,1,1,2)). "
+                "Axis 8 histories: receiver obtained by restrict of a larger object, slicing (all / tail), integer-array and boolean indexing, get, arithmetic, a numpy function, save + load_file, copy, a column of a TsdFrame (strided data), "
+                "a previous threshold or dropna (content read back from the object); read-only, Fortran-ordered and memory-mapped (load_array=False) data; ONE ndarray passed as times and data; the same live receiver used for all four methods / for two dropna calls"
+                % (nmax, dmax, nrand, nmax, 3000 if tier == "quick" else 9000, 3000 if tier == "quick" else 8000))
     res.exhaustive = True
     rng = random.Random(seed * 11 + 3)
     distinct, dups = [], []
@@ -379,6 +1192,52 @@ def run(res, tier, seed):
             res.count("threshold:has_1ns_gap")
         if n % 1501 == 0:
             res.sample({"ep": ep, "ts": ts, "values": vals, "model_support_above": out[4 * n]})
+    # ---- threshold in widened argument forms (processed in chunks: receivers built, model run on their effective content, oracle)
+    wrng = random.Random(seed * 13 + 5)
+    nwt = 3000 if tier == "quick" else 9000
+    wcases = [wide_threshold_case(wrng, distinct, dups) for _ in range(nwt)]
+    sigs = set()
+    for c0 in range(0, nwt, 500):
+        chunk = wcases[c0:c0 + 500]
+        recs, lines = [], []
+        for c in chunk:
+            rec, sig = fit_threshold_case(nap, c, tier)
+            sigs.add(sig)
+            recs.append(rec)
+            for m in c["methods"]:
+                kept = [1 if METHODS[m](v, c["thr"]) else 0 for v in rec[2]]
+                lines.append("threshold\t%s\t%s\t%s" % (C.fmt_iset(rec[3]), C.fmt_ints(rec[1]), C.fmt_ints(kept)))
+        wout = C.run_model(lines)
+        li = 0
+        for c, rec in zip(chunk, recs):
+            form = c["form"]
+            fkey = tuple(sorted((k_, str(v_)) for k_, v_ in form.items()))
+            for j, m in enumerate(c["methods"]):
+                kept = [METHODS[m](v, c["thr"]) for v in rec[2]]
+                res.case((tuple(rec[3]), tuple(rec[1]), tuple(kept), m, c["dtype"], fkey), nontrivial=len(rec[1]) >= 2 and any(kept) and not all(kept))
+                mv = [int(x) for x in wout[li].split()]
+                li += 1
+                msup = [(a // 2, b // 2) for a, b in zip(mv[0::2], mv[1::2])] if all(v % 2 == 0 for v in mv) else None
+                if msup is None or not G.canonical(msup):
+                    msup = None
+                    res.count("threshold:model_support_not_comparable(half-tick or non-canonical raw support)")
+                # reuse: the four methods run on ONE live receiver; otherwise the receiver built above is used once
+                check_threshold(nap, c["ts"], c["vals"], c["ep"], m, c["thr"], msup, res, c["dtype"], form, x=rec)
+            thr = c["thr"]
+            _count_form(res, "threshold", form, ["wide:dtype=" + c["dtype"],
+                                                 "wide:thr=" + ("nan" if thr != thr else "infinite" if abs(thr) == float("inf") else "integer" if thr == int(thr) else "fractional"),
+                                                 "wide:n_samples=%d" % len(rec[1]), "wide:n_intervals=%d" % len(rec[3])]
+                        + (["wide:same_live_receiver_for_4_methods"] if c["reuse"] else [])
+                        + (["wide:values_with_nan_or_inf"] if any(v != v or abs(v) == float("inf") for v in rec[2] if isinstance(v, float)) else [])
+                        + (["wide:negative_times"] if rec[1] and rec[1][0] < 0 else []) + (["wide:times_beyond_1e5s"] if rec[1] and abs(rec[1][0]) >= 10**14 else [])
+                        + (["wide:duplicate_timestamps"] if len(set(rec[1])) < len(rec[1]) else []))
+            if c is chunk[-1] and c0 % 1000 == 0:
+                res.sample({"wide_threshold_case": {k_: c[k_] for k_ in ("ep", "ts", "vals", "dtype", "thr", "methods", "form")}}, limit=8)
+        del recs
+    res.count("threshold:wide:distinct_kernel_specialisations(data dtype/layout/writable x threshold type)", len(sigs))
+    for s_ in sorted(sigs):
+        if s_[1:3] != ("C", "rw"):
+            res.count("threshold:wide:data_reaching_kernel=" + ("strided" if s_[1] == "A" else "read-only") + "," + s_[0])
     # dropna
     dcases = []
     for n in range(1, nmax + 1):
@@ -419,6 +1278,32 @@ def run(res, tier, seed):
         if n % 7 == 0:
             check_dropna(nap, ts, keep, res, msup, "TsdFrame", sups[n % len(sups)])
             check_dropna(nap, ts, keep, res, msup, "TsdTensor", sups[(n + 1) % len(sups)])
+    # ---- dropna in widened forms
+    nwd = 3000 if tier == "quick" else 8000
+    wd = [wide_dropna_case(wrng, pts) for _ in range(nwd)]
+    for c0 in range(0, nwd, 500):
+        chunk = wd[c0:c0 + 500]
+        recs = [dropna_receiver(nap, c["ts"], c["keep"], c["cls"], c["support"], c["form"]) for c in chunk]
+        wout = C.run_model(["dropna\t%s\t%s" % (C.fmt_ints(rec[1]), C.fmt_ints(rec[2])) for rec in recs])
+        for c, rec, o in zip(chunk, recs, wout):
+            mv = [int(x) for x in o.split()]
+            msup = list(zip(mv[0::2], mv[1::2]))
+            msup = msup if G.canonical(msup) else None
+            form = c["form"]
+            v = form["variant"]
+            fkey = tuple(sorted((k_, str(v_)) for k_, v_ in form.items()))
+            for cf in c["calls"]:
+                res.case((tuple(rec[1]), tuple(rec[2]), "dropna", c["cls"], cf, fkey), nontrivial=any(rec[2]) and not all(rec[2]))
+                check_dropna(nap, c["ts"], c["keep"], res, msup if cf in ("()", "(True)", "(kw=True)") else None, c["cls"], c["support"], dict(form, call=cf), x=rec)
+                res.count("dropna:wide:call=" + cf)
+            _count_form(res, "dropna", form, ["wide:class=" + c["cls"], "wide:dtype=" + v["dtype"], "wide:row_shape=" + str(tuple(v["shape"])),
+                                              "wide:support=" + (c["support"] if isinstance(c["support"], str) else "multi-interval"), "wide:n_samples=%d" % len(rec[1])]
+                        + (["wide:same_live_receiver_twice"] if len(c["calls"]) > 1 else [])
+                        + (["wide:frame_columns=" + v.get("cols", "default") + (",metadata" if v.get("meta") else "")] if c["cls"] == "TsdFrame" else [])
+                        + (["wide:negative_times"] if rec[1] and rec[1][0] < 0 else []) + (["wide:times_beyond_1e5s"] if rec[1] and abs(rec[1][0]) >= 10**14 else []))
+            if c is chunk[-1] and c0 % 1000 == 0:
+                res.sample({"wide_dropna_case": c}, limit=8)
+        del recs
 
 
 def search(res, seed):
@@ -434,11 +1319,14 @@ def replay(payload):
     v = payload.get("violation") or (payload.get("disagreements") or [{}])[0]
     inp = v.get("input", {})
     r = C.Result()
+    form = inp.get("form")
     if "values" in inp:
-        check_threshold(nap, inp["ts"], inp["values"], [tuple(x) for x in inp["ep"]], inp["method"], inp["thr"], None, r, inp.get("dtype", "float"))
+        thr = float(inp["thr"]) if isinstance(inp["thr"], str) else inp["thr"]          # 'nan' / 'inf' spelled as strings
+        vals = [float(v) if isinstance(v, str) else v for v in inp["values"]]
+        check_threshold(nap, inp["ts"], vals, [tuple(x) for x in inp["ep"]], inp["method"], thr, None, r, inp.get("dtype", "float"), form)
     else:
         s = inp.get("support", "wide")
-        check_dropna(nap, inp["ts"], inp["keep"], r, None, inp.get("class", "Tsd"), s if isinstance(s, str) else [tuple(i) for i in s])
+        check_dropna(nap, inp["ts"], inp["keep"], r, None, inp.get("class", "Tsd"), s if isinstance(s, str) else [tuple(i) for i in s], form)
     print("input", inp)
     print("violations on this tree:", r.violations)
     return 1 if r.violations else 0
